@@ -585,6 +585,9 @@ type c05bRun struct {
 	k   *c05bCase
 	out *vh.Out
 	now int64
+	// the case has used age / a failing backend / lost timers: expired leases and pending revocation jobs may exist, whose
+	// loads could reach a lease before the restore does; the faulted restarts are only driven while this is false
+	perturbed bool
 }
 
 func (x *c05bRun) emit(res string, fields ...string) {
@@ -684,6 +687,9 @@ func (x *c05bRun) tokRevoke(o int) {
 }
 
 func (x *c05bRun) setFail(mode string, n int) {
+	if mode != "none" {
+		x.perturbed = true
+	}
 	c05bRec.mu.Lock()
 	c05bRec.Mode, c05bRec.Transient = mode, n
 	c05bRec.mu.Unlock()
@@ -692,6 +698,7 @@ func (x *c05bRun) setFail(mode string, n int) {
 
 // freeze: the expire strategy becomes the manager's own no-op (a lost timer); a restart thaws
 func (x *c05bRun) freeze(on bool) {
+	x.perturbed = x.perturbed || on
 	var f ExpireLeaseStrategy = expireLeaseStrategyFairsharing
 	if on {
 		f = expireNoop
@@ -702,6 +709,7 @@ func (x *c05bRun) freeze(on bool) {
 
 // age: the lease was issued `secs` earlier (time passing, without waiting)
 func (x *c05bRun) age(o int, secs int64) {
+	x.perturbed = true
 	x.now++
 	k := x.k
 	res := "err:notfound"
@@ -832,6 +840,101 @@ func (x *c05bRun) restart(kind int) {
 	x.emit(x.k.restart(kind), "restart", vh.I(int64(kind)), vh.I(x.now))
 }
 
+// restartFault: the leadership-change restart (Stop + setupExpiration) during which the storage read of lease o's entry
+// fails once inside processRestore.  The node must not stay active with that lease untracked: restore() returns the
+// error and runs errorFunc (Core.Shutdown) — answer err:shutdown, after which a new core is started on a copy of the
+// store.  A node that stays active answers ok and is observed as it is.
+func (x *c05bRun) restartFault(o int) {
+	k := x.k
+	if x.perturbed || o >= len(k.leases) || k.sealed[k.leases[o].ns] {
+		x.restart(0)
+		return
+	}
+	x.now++
+	if err := k.c.expiration.Stop(); err != nil {
+		x.emit("err:stop", "restartfault", vh.I(int64(o)), vh.I(x.now))
+		return
+	}
+	k.p.FailKeyOnce("get", "sys/expire/id/"+k.leases[o].leaseID, "processRestore")
+	if err := k.c.setupExpiration(expireLeaseStrategyFairsharing, false); err != nil {
+		k.p.KeyFaultFired()
+		x.emit("err:setup", "restartfault", vh.I(int64(o)), vh.I(x.now))
+		return
+	}
+	// the shutdown that a failed restore triggers tears the manager down (c.expiration becomes nil): keep our own handle
+	if m := k.c.expiration; m != nil {
+		for i := 0; i < 2000 && m.inRestoreMode(); i++ {
+			time.Sleep(5 * time.Millisecond)
+		}
+	}
+	if !k.p.KeyFaultFired() {
+		// the restore never read that entry (it is not in storage): this was an ordinary restart
+		x.emit("ok", "restart", "0", vh.I(x.now))
+		return
+	}
+	down := false
+	for i := 0; i < 600 && !down; i++ {
+		if down = k.c.Sealed(); !down {
+			time.Sleep(5 * time.Millisecond)
+		}
+	}
+	res := "ok"
+	if down {
+		res = "err:shutdown"
+		snap := c05bSnapshot(k.t, k.p)
+		c2, err := vhRestartCore(k.t, snap, k.keys, nil, c05bTweak)
+		if err != nil {
+			x.out.Op("err:restart", "restartfault", vh.I(int64(o)), vh.I(x.now))
+			return
+		}
+		k.c, k.p = c2, snap
+		for i := 0; i < 2000 && k.c.expiration.inRestoreMode(); i++ {
+			time.Sleep(5 * time.Millisecond)
+		}
+	}
+	x.emit(res, "restartfault", vh.I(int64(o)), vh.I(x.now))
+}
+
+// unsealFault: unseal of namespace ns during which the storage read of its lease o fails once inside processRestore:
+// RestoreNamespace returns the error, the unseal fails and errorFunc seals the namespace again.
+func (x *c05bRun) unsealFault(ns, o int) {
+	k := x.k
+	if x.perturbed || o >= len(k.leases) || k.leases[o].ns != ns {
+		x.unsealNS(ns)
+		return
+	}
+	x.now++
+	k.p.FailKeyOnce("get", "sys/expire/id/"+k.leases[o].leaseID, "processRestore")
+	err := k.doUnseal(ns)
+	if !k.p.KeyFaultFired() {
+		res := "ok"
+		if err != nil {
+			res = "err:unseal"
+		} else {
+			k.sealed[ns] = false
+		}
+		x.emit(res, "unseal", vh.I(int64(ns)), vh.I(x.now))
+		return
+	}
+	resealed := false
+	for i := 0; i < 600 && !resealed; i++ {
+		if resealed = k.c.NamespaceSealed(k.nss[ns]); !resealed {
+			time.Sleep(5 * time.Millisecond)
+		}
+	}
+	res := "ok"
+	switch {
+	case err != nil && resealed:
+		res = "err:unseal"
+	case err != nil:
+		res = "err:unseal-left-open"
+		k.sealed[ns] = false
+	default:
+		k.sealed[ns] = resealed
+	}
+	x.emit(res, "unsealfault", vh.I(int64(ns)), vh.I(int64(o)), vh.I(x.now))
+}
+
 // start a case: fresh core; lease 0 is the requesting token (service, 4 h), created by root
 func c05bStart(t *testing.T, out *vh.Out) *c05bRun {
 	out.Reset()
@@ -846,6 +949,17 @@ func c05bStart(t *testing.T, out *vh.Out) *c05bRun {
 // directed histories (always run first): the corner cases a random history reaches only rarely
 func c05bDirected() []func(x *c05bRun) {
 	return []func(x *c05bRun){
+		func(x *c05bRun) { // a restore that cannot read one lease entry must not leave the node active (secret lease, token lease)
+			x.reg(0, 3600, 7200, true)
+			x.tokCreate(3600, 0, true)
+			x.restartFault(1)
+			x.renew(1, 60)
+			x.restartFault(2)
+			x.renew(2, 60)
+			x.restartFault(0)
+			x.revoke(1, true)
+			x.restartFault(1) // no longer stored: an ordinary restart
+		},
 		func(x *c05bRun) { // renewals of an ageing secret lease: full, then capped by issue + backend max, then capped hard
 			x.reg(0, 3600, 7200, true)
 			x.age(1, 3000)
@@ -963,6 +1077,11 @@ func TestVerifC05b(t *testing.T) {
 			x.seal(2)
 			x.unsealNS(2)
 			x.renew(l, 60)
+			// an unseal whose restore cannot read one lease entry fails and leaves the namespace sealed; the next one succeeds
+			x.seal(2)
+			x.unsealFault(2, l)
+			x.unsealNS(2)
+			x.renew(l, 60)
 			x.revoke(l, false)
 			_ = k.c.Shutdown()
 			continue
@@ -1030,7 +1149,18 @@ func TestVerifC05b(t *testing.T) {
 				}
 			case w < 80:
 				if len(sealedNS) > 0 {
-					x.unsealNS(sealedNS[r.Intn(len(sealedNS))])
+					ns := sealedNS[r.Intn(len(sealedNS))]
+					f := -1
+					for _, o := range live {
+						if k.leases[o].ns == ns && r.Chance(60) {
+							f = o
+						}
+					}
+					if f >= 0 && r.Chance(40) {
+						x.unsealFault(ns, f)
+					} else {
+						x.unsealNS(ns)
+					}
 				}
 			case w < 92:
 				// unseal with the restore held on one of the namespace's leases whose shard no other lease shares
@@ -1149,7 +1279,11 @@ func TestVerifC05b(t *testing.T) {
 			case w < 95:
 				x.rootCreate()
 			default:
-				x.restart(r.Intn(2))
+				if r.Chance(45) {
+					x.restartFault(pick())
+				} else {
+					x.restart(r.Intn(2))
+				}
 			}
 		}
 		// crash points of one sync operation at the end of the case: every write prefix, new core, tracked = stored
